@@ -433,6 +433,18 @@ theorem tiled_geometry_positions (origin rowCos colCos : V3) (psRow psCol : Rat)
       refine ⟨by ring, by ring, by ring⟩
     · cases hfull
 
+/-- **Clause 1 for tiled segmentations written from a volume in SLIDE coordinates** (any admissible affine, either
+handedness; one plane): the segmentation records the volume's plane position as total-pixel-matrix origin, its
+orientation and measures; the volume read back (default request) has the total pixel matrix exactly where the
+input volume has its plane: voxel `(0, r, c)` at the input's position of `(0, r, c)`. -/
+theorem tiled_volume_roundtrip {g : Geom} (hg : Admissible g) (R C : Int) (hR : 1 ≤ R) (hC : 1 ≤ C) :
+    ∃ out, tiledVolume .seg (storeTiled g).origin (storeTiled g).rowCos (storeTiled g).colCos (storeTiled g).psRow
+        (storeTiled g).psCol (storeTiled g).sbs R C ({} : Request) = .ok out ∧
+      out.n = 1 ∧ out.rows = R ∧ out.cols = C ∧ ∀ r c : Int, out.aff.apply 0 r c = g.aff.apply 0 r c := by
+  obtain ⟨full, hfull, happ⟩ := tiled_store_geometry hg
+  obtain ⟨out, hout, haff, hn, hr, hc⟩ := tiled_volume_agrees_with_reported_geometry .seg _ _ _ _ _ _ R C hR hC full hfull
+  exact ⟨out, hout, hn, hr, hc, fun r c => by rw [haff]; exact happ r c⟩
+
 /-! ## 5. Every pyramid level covers the same physical extent -/
 
 /-- **Clause 4 (regenerated `row_spacing` / `column_spacing` of `create_segmentation_pyramid`)**: for masks of
